@@ -558,10 +558,57 @@ pub fn l_bytes_strategy(_tier: Tier) -> BoxedStrategy<LCase> {
     decoded_strategy(l_fuzz_domain)
 }
 
+const SEL: [u16; 3] = [0, 21846, 43691];
+/// bounded-exhaustive scope: every history of 4 (thorough: 5) operations over a 20-operation alphabet
+fn seq_len(tier: Tier) -> usize {
+    if tier == Tier::Quick {
+        4
+    } else {
+        5
+    }
+}
+fn c_alphabet() -> Vec<COp> {
+    let mut a = vec![COp::AddNode, COp::ClearEdges];
+    for x in SEL {
+        for y in SEL {
+            a.push(COp::AddEdge(x, y, false));
+            a.push(COp::AddEdge(x, y, true));
+        }
+    }
+    a
+}
+fn c_enum_count(tier: Tier) -> u64 {
+    2 * (c_alphabet().len() as u64).pow(seq_len(tier) as u32)
+}
+fn c_enum_make(tier: Tier, i: u64) -> CCase {
+    let a = c_alphabet();
+    let ops = crate::util::digits(i / 2, a.len() as u64, seq_len(tier)).into_iter().map(|d| a[d].clone()).collect();
+    CCase { directed: i % 2 == 0, width: ((i / 2) % 4) as u8, n0: 3, ops }
+}
+fn l_alphabet() -> Vec<LOp> {
+    let mut a = vec![LOp::AddNode(0, Vec::new()), LOp::Clear];
+    for x in SEL {
+        for y in SEL {
+            a.push(LOp::AddEdge(x, y));
+            a.push(LOp::UpdateEdge(x, y));
+        }
+    }
+    a
+}
+fn l_enum_count(tier: Tier) -> u64 {
+    (l_alphabet().len() as u64).pow(seq_len(tier) as u32)
+}
+fn l_enum_make(tier: Tier, i: u64) -> LCase {
+    let a = l_alphabet();
+    let mut ops = vec![LOp::AddNode(0, Vec::new()), LOp::AddNode(0, Vec::new()), LOp::AddNode(0, Vec::new())];
+    ops.extend(crate::util::digits(i, a.len() as u64, seq_len(tier)).into_iter().map(|d| a[d].clone()));
+    LCase { width: (i % 4) as u8, ops }
+}
+
 pub fn property() -> Property {
     Property {
         id: "C05",
-        rule: "csr: insertion histories over Csr<_,_,Directed|Undirected,u8|u16|u32|usize> starting from with_nodes(0..=11 or 34..=79): add_node, add_edge / try_add_edge (random order, duplicates, self-loops), hub fills that grow one row through 31/32/33..59 entries in generated order, out-of-range endpoints (Err / documented panic), clear_edges; after each insertion the touched rows, and regularly the whole structure (counts, strictly ascending neighbors_slice, edges_slice, out_degree, edges, contains_edge below/inside/above each row, edge_references once per edge, node weights, clone) are compared with a row-map model; non-trivial = a row with >= 32 entries that received further inserts/lookups. from_sorted_edges: sorted duplicate-free lists and lists perturbed by one swap / duplicate / decrement / left unsorted; Ok iff strictly increasing, then equal to edge-by-edge construction in reverse order. list: histories over adj::List (add_node variants, add_edge incl. parallel, Build::update_edge, weight writes through saved indices, out-of-range panics, clear) with every edge index ever returned re-validated after every step; non-trivial = a parallel edge and an update. Distinct by case fingerprint; the *-from-bytes sub-checks feed the same interpreter with histories decoded from generated byte strings by the libFuzzer codec (all operation kinds equally likely, up to the thorough-tier length)",
+        rule: "csr: insertion histories over Csr<_,_,Directed|Undirected,u8|u16|u32|usize> starting from with_nodes(0..=11 or 34..=79): add_node, add_edge / try_add_edge (random order, duplicates, self-loops), hub fills that grow one row through 31/32/33..59 entries in generated order, out-of-range endpoints (Err / documented panic), clear_edges; after each insertion the touched rows, and regularly the whole structure (counts, strictly ascending neighbors_slice, edges_slice, out_degree, edges, contains_edge below/inside/above each row, edge_references once per edge, node weights, clone) are compared with a row-map model; non-trivial = a row with >= 32 entries that received further inserts/lookups. from_sorted_edges: sorted duplicate-free lists and lists perturbed by one swap / duplicate / decrement / left unsorted; Ok iff strictly increasing, then equal to edge-by-edge construction in reverse order. list: histories over adj::List (add_node variants, add_edge incl. parallel, Build::update_edge, weight writes through saved indices, out-of-range panics, clear) with every edge index ever returned re-validated after every step; non-trivial = a parallel edge and an update. Distinct by case fingerprint; the *-from-bytes sub-checks feed the same interpreter with histories decoded from generated byte strings by the libFuzzer codec (all operation kinds equally likely, up to the thorough-tier length); bounded-exhaustive sub-checks: every history of 4 (thorough: 5) operations over 20-operation alphabets (Csr: add node, clear_edges, add / try-add edge for every ordered pair of three nodes, from with_nodes(3); List: add node, clear, add / update edge for every ordered pair, after three initial nodes)",
         assumptions: &[
             "Csr::contains_edge(node_count, _) (documented to panic, returns false) and List::update_edge with an out-of-range target are not generated",
             "Csr has no index-limit checks: node counts stay below 200 for all widths",
@@ -572,6 +619,8 @@ pub fn property() -> Property {
             sub("csr/history-from-bytes", 60_000, 1_000_000, c_bytes_strategy, c_run),
             sub("csr/from_sorted_edges", 600_000, 20_000_000, s_strategy, s_run),
             sub_fuzz("list/history", 300_000, 8_000_000, l_strategy, l_run, l_fuzz_domain),
+            sub_enum("csr/all-short-histories", c_enum_count, c_enum_make, c_run),
+            sub_enum("list/all-short-histories", l_enum_count, l_enum_make, l_run),
             sub("list/history-from-bytes", 300_000, 6_000_000, l_bytes_strategy, l_run),
         ],
     }
